@@ -130,7 +130,11 @@ def main():
     rows = []
     p = os.path.join(V, "target", "matrix.csv")
     if os.path.exists(p):
-        rows = [r for r in csv.DictReader(open(p)) if r.get("check")]
+        last = {}
+        for r in csv.DictReader(open(p)):
+            if r.get("check") and r.get("rc") is not None:
+                last[(r["mutant"], r["check"], r["tier"])] = r  # a later run of the same pair replaces the earlier one
+        rows = list(last.values())
     for name, (prop, change, needs) in T.items():
         d = os.path.join(V, "seeded", name)
         if not os.path.isdir(d):
